@@ -7,7 +7,8 @@ changes) are given to hl7apy's parse_segment and, as inline srefs, to the Coq mo
 and outcomes are compared inside Coq.  Oracle: datatypes/cardinalities of created children read
 back from the profile, validate() judges against the profile, a restating profile changes nothing,
 MessageProfileNotFound / LegacyMessageProfile, message-level profiles (synthesised one-edit
-profiles and the shipped ITI-21 profile).
+profiles and the shipped ITI-21 profile).  Message-level correspondence (section MESSAGE-LEVEL
+CORRESPONDENCE below): parse_message with a message profile against coq/Model/MessageProf.v.
 """
 import copy
 import os
@@ -88,14 +89,450 @@ def walk_datatypes(seg, ref, ec):
     return out
 
 
+# ==========================================================================================================
+# MESSAGE-LEVEL CORRESPONDENCE (coq/Model/MessageProf.v): parse_message(text, validation_level, find_groups,
+# message_profile) on the implementation vs parse_message_prof_gen on the same (text, profile, level,
+# find_groups) inside coqc.  Compared: outcome code, full dump of the message tree (every segment in the
+# format of Model/Dump.v, so the datatypes a profile changes are visible), to_er7(), and the sorted error
+# keys of validate().  Profiles: None, {}, restating, lacking the structure, required/forbidden top-level
+# segment, retyped field of a top-level segment, edit inside (nested) groups, differently-cased key, the
+# shipped legacy profile's tuple; plus the outcome of Message(name, reference=profile) for each profile and
+# name spelling, and two oracle probes (empty profile -> MessageProfileNotFound; lower-case name given to the
+# constructor).  Disagreements: run.disagree('message-profile', ...).
+# ==========================================================================================================
+
+MP_PRELUDE = '''From Coq Require Import List NArith ZArith Init.Byte.
+From HL7 Require Import Lib.Str Model.Ec Model.Result Model.Ref Model.Tree Model.MsgTree Model.Groups Model.Message Model.MessageProf Model.LeafFull Model.Validate Proofs.ProfileMsg Gen.Params.
+From HL7 Require Gen.%(mod)s.
+Import ListNotations. Open Scope bs_scope.
+(* the generated tables with the entries these cases need copied to the front: every lookup is unchanged
+   (Proofs/ValidateFacts.v: slookup_front / front_tables_lookups).  The tables are a lambda-bound argument
+   of everything below so that the copy is made once per file (call by value). *)
+Definition tables_of_file : tables := front_tables %(segs)s %(dts)s Gen.%(mod)s.tables.
+Fixpoint strs_eqb (a b : list str) : bool :=
+  match a, b with [], [] => true | x :: a', y :: b' => streqb x y && strs_eqb a' b' | _, _ => false end.
+(* level, find_groups, profile, text; expected: parse code, dump, to_er7 code, encoding, validate code, error keys *)
+Definition case := (nat * bool * option profile * str * nat * str * nat * str * nat * list str)%%type.
+Definition run1 (t : tables) (c : case) : bool :=
+  match c with (l, fg, prof, text, code, d, ecode, enc, vcode, keys) =>
+    let lvl := match l with 1%%nat => STRICT | _ => TOLERANT end in
+    let lib := fun v : str => if streqb v (t_version t) then Some t else None in
+    match parse_message_prof_gen lib (t_version t) lvl leaf_enc_full fg prof text with
+    | Err x => Nat.eqb (exn_code x) code
+    | Ok (t', m) =>
+        Nat.eqb code 0 && streqb (dump_message_full m) d &&
+        match enc_message t' lvl m with
+        | Ok s => Nat.eqb ecode 0 && streqb s enc &&
+                  match message_ec (t_version t') m with
+                  | Ok e => match validate_message_log t' lvl e m with
+                            | Ok log => Nat.eqb vcode 0 && strs_eqb (log_keys log) keys
+                            | Err x => Nat.eqb (exn_code x) vcode
+                            end
+                  | Err _ => true
+                  end
+        | Err x => Nat.eqb (exn_code x) ecode
+        end
+    end end.
+Fixpoint failing (t : tables) (n : nat) (l : list case) : list nat :=
+  match l with [] => [] | c :: r => (if run1 t c then [] else [n]) ++ failing t (S n) r end.
+(* Message(name, reference=profile, version, validation_level): level, name, profile; expected outcome code *)
+Definition ccase := (nat * option str * option profile * nat)%%type.
+Definition crun1 (t : tables) (c : ccase) : bool :=
+  match c with (l, name, prof, code) =>
+    let lvl := match l with 1%%nat => STRICT | _ => TOLERANT end in
+    Nat.eqb (outcome_code (new_message_profiled lvl t default_ec name prof)) code end.
+Fixpoint cfailing (t : tables) (n : nat) (l : list ccase) : list nat :=
+  match l with [] => [] | c :: r => (if crun1 t c then [] else [n]) ++ cfailing t (S n) r end.
+(* the hypothesis of C18_grouped_nodes_take_profile_subreference on the profiles of this file: indices of the profiles
+   with an entry whose groups are NOT named consistently (informative: counted, not a disagreement) *)
+Definition pok (t : tables) (p : option profile) : bool :=
+  match p with
+  | Some l => forallb (fun x => match snd x with PRef r => profile_groups_ok t 14 r | PLegacy => true end) l
+  | None => true
+  end.
+Fixpoint pfailing (t : tables) (n : nat) (l : list (option profile)) : list nat :=
+  match l with [] => [] | p :: r => (if pok t p then [] else [n]) ++ pfailing t (S n) r end.
+'''
+
+
+def mp_dump(m):
+    """harness twin of Model/MessageProf.v dump_message_full"""
+    from hl7apy.core import Group
+    ec = m.encoding_chars
+
+    def d(c):
+        if isinstance(c, Group):
+            return '(%s%s)' % (c.name or '-', ''.join(' ' + d(y) for y in c.children))
+        return S.dump_seg(c, ec)
+    return (m.name or '-') + ':' + ' '.join(d(c) for c in m.children)
+
+
+def mp_observe(text, lvl, fg, prof):
+    import c04
+    o = {'code': 0, 'dump': '', 'ecode': 0, 'enc': '', 'vcode': 0, 'keys': []}
+    try:
+        m = parse_message(text, validation_level=lvl, find_groups=fg, message_profile=prof)
+        o['dump'] = mp_dump(m)
+    except Exception as ex:  # noqa
+        o['code'] = S.outcome_code(ex)
+        o['dump'] = ''
+        return o
+    try:
+        o['enc'] = m.to_er7()
+    except Exception as ex:  # noqa
+        o['ecode'] = S.outcome_code(ex)
+        return o
+    try:
+        rep = m.validate(return_errors=True)
+        o['keys'] = sorted(c04.norm(str(x)) for x in rep.errors)
+    except Exception as ex:  # noqa
+        o['vcode'] = S.outcome_code(ex)
+    return o
+
+
+def mp_profile_term(lib, prof, legacy_keys=()):
+    """Coq term of type `option profile` (None when some part of the profile is not translatable)"""
+    import re
+    import gen_tables
+    if prof is None:
+        return 'None'
+    # the translator memoises its structural-equality test by id(): profiles are short-lived objects whose ids are
+    # re-used, so the memo must not outlive them (a stale hit writes an edited row by name, i.e. as the standard one)
+    gen_tables._EQ.clear()
+    rows = []
+    for k, r in prof.items():
+        if k in legacy_keys:
+            rows.append('(%s, PLegacy)' % S.coq_str(k))
+            continue
+        ser = gen_tables.Ser(lib)
+        t = ser.ref(r)
+        if ser.bad:
+            return None
+        rows.append('(%s, PRef (%s)%%Z)' % (S.coq_str(k), re.sub(r's"([^"]*)"', r'(unbs "\1")', t)))
+    return '(Some [%s])' % '; '.join(rows)
+
+
+def mp_instance(ref, mode):
+    """segment names of an instance: required children once ('req') or with every repeatable group twice ('rep2')"""
+    out = []
+    for row in ref[1]:
+        name, cref, (mn, mx), kind = row
+        if mode == 'rep2':
+            n = 2 if (kind == 'GRP' and (mx == -1 or mx > 1)) else (1 if mn >= 1 or kind == 'GRP' else 0)
+        else:
+            n = 1 if mn >= 1 else 0
+        for _ in range(n):
+            if kind == 'SEG':
+                out.append(name)
+            elif cref is not None:
+                out.extend(c01.instance_names(cref, 'req') or c01.instance_names(cref, 'all')[:1])
+    return out
+
+
+def mp_edit_deep(rng, ref, lib):
+    """one field edit (cardinality and, for a swappable leaf, datatype) inside a (nested) group"""
+    r = thaw(ref)
+    groups = [row for row in r[1] if row[3] == 'GRP' and row[1] is not None]
+    if not groups:
+        return None
+    node = rng.choice(groups)[1]
+    while True:
+        sub = [row for row in node[1] if row[3] == 'GRP' and row[1] is not None]
+        segs = [row for row in node[1] if row[3] == 'SEG' and row[1] is not None and row[1][1] and row[0] != 'MSH']
+        if segs and (not sub or rng.random() < .6):
+            srow = rng.choice(segs)
+            frows = [f for f in srow[1][1][:4] if f[1] is not None]
+            if not frows:
+                return None
+            frow = rng.choice(frows)
+            frow[2] = [1, 1] if frow[2][0] == 0 else [0, 1]
+            if frow[1][0] == 'leaf' and BASE_SWAP.get(frow[1][2]) in lib.get_base_datatypes():
+                frow[1][2] = BASE_SWAP[frow[1][2]]
+            return freeze(r)
+        if not sub:
+            return None
+        node = rng.choice(sub)[1]
+
+
+def mp_edit_top(rng, ref, lib, what):
+    """'card': a top-level segment becomes required / forbidden; 'field': one of its first fields is retyped / required"""
+    r = thaw(ref)
+    rows = [row for row in r[1] if row[3] == 'SEG' and row[0] != 'MSH' and row[1] is not None and row[1][1]]
+    if not rows:
+        return None
+    row = rng.choice(rows)
+    if what == 'card':
+        row[2] = [1, 1] if row[2][0] == 0 else [0, 0]
+    else:
+        cands = [f for f in row[1][1][:5] if f[1] is not None and f[1][0] == 'leaf' and BASE_SWAP.get(f[1][2]) in lib.get_base_datatypes()]
+        cands = cands or [f for f in row[1][1][:3] if f[1] is not None]
+        if not cands:
+            return None
+        frow = rng.choice(cands)
+        if frow[1][0] == 'leaf' and BASE_SWAP.get(frow[1][2]) in lib.get_base_datatypes():
+            frow[1][2] = BASE_SWAP[frow[1][2]]
+        frow[2] = [1, 1] if frow[2][0] == 0 else [0, 1]
+    return freeze(r)
+
+
+# leaves of the message-level lines: valid under every datatype of BASE_SWAP's image at both levels where possible
+# (short, so that STRICT does not stop at MaxLengthReached before the profile has been used)
+MP_LEAF = {
+    'DT': ['20200101', '2020'], 'DTM': ['20200101', '202001011230'], 'TM': ['1200', '12'], 'NM': ['1', '15', '1.5'],
+    'SI': ['1', '12'], 'ST': ['abc', 'a\\F\\b', 'A B', '7'], 'ID': ['A', 'Y'], 'IS': ['A', 'B'], 'TN': ['555-1234'],
+    'TX': ['text', 't\\E\\x'], 'FT': ['ft'], 'WD': ['w'], 'GTS': ['g'], 'SNM': ['s1'], 'CM': ['cm'],
+}
+
+
+def mp_line(rng, lib, ec, sname, keep=5):
+    """a canonical line cut after its first `keep` fields (the profile edits sit there; field parsing in depth is
+    the segment-level correspondence's business and costs the model ~3 ms per component)"""
+    saved = S.LEAF
+    S.LEAF = MP_LEAF
+    try:
+        for _ in range(6):
+            line = S.gen_segment_line(rng, lib, ec, sname=sname, messy=False)
+            cut = ec['FIELD'].join(line.split(ec['FIELD'])[:keep + 1]).rstrip(ec['FIELD'])
+            if len(cut) > 4:
+                return cut
+        return cut + ec['FIELD'] + '1' if len(cut) == 3 else cut
+    finally:
+        S.LEAF = saved
+
+
+def mp_datatypes(ref, acc, depth=0):
+    """datatype names reachable from a reference (their DATATYPES rows are moved to the front of the tables)"""
+    if isinstance(ref, (tuple, list)) and len(ref) > 2 and isinstance(ref[2], str):
+        acc.add(ref[2])
+    if isinstance(ref, (tuple, list)) and len(ref) > 1 and ref[0] in ('sequence', 'choice') and depth < 8 \
+            and isinstance(ref[1], (tuple, list)):
+        for row in ref[1]:
+            if isinstance(row, (tuple, list)) and len(row) == 4:
+                mp_datatypes(row[1], acc, depth + 1)
+
+
+def message_profile_prepare(run, dist):
+    """implementation side: runs hl7apy on the generated (text, profile, level, find_groups) and writes the Coq case
+    files; returns (files, index) for coq_eval_many / message_profile_collect"""
+    import random
+    from common import shard
+    from coqgen import coq_str, is_model_str
+    rng = random.Random(run.rng.getrandbits(64))     # own stream: the other generators of this check are not shifted
+    nmsg = 1 if not run.thorough else 8          # per version; ~40 cases per message, ~0.12 s of coqc each
+    legacy_tuple = None
+    try:
+        lp = hl7apy.load_message_profile(os.path.join(REPO, 'tests', 'profiles',
+                                                      'old_pharm_h4' + ('_win' if os.name == 'nt' else '')))
+        legacy_tuple = list(lp.values())[0]
+    except (OSError, pickle.UnpicklingError):
+        pass
+    byv = {}
+    cbyv = {}
+    for v in S.VERSIONS:
+        lib = hl7apy.load_library(v)
+        ec = S.default_ec(v)
+        mnames = [m for m in sorted(lib.MESSAGES) if isinstance(lib.MESSAGES[m], tuple) and len(lib.MESSAGES[m]) == 2
+                  and lib.MESSAGES[m][1] and '_' in m and not m.endswith('nn') and m == m.upper()
+                  and any(row[3] == 'GRP' for row in lib.MESSAGES[m][1])]
+        rng.shuffle(mnames)
+        done = 0
+        for m in mnames:
+            if done >= nmsg:
+                break
+            std = lib.MESSAGES[m]
+            try:
+                names = mp_instance(std, rng.choice(['req', 'rep2', 'rep2']))
+            except Exception:  # noqa
+                continue
+            if not names or names[0] != 'MSH' or 'ANYHL7SEGMENT' in names or not (2 <= len(names) <= 12):
+                continue
+            if any(not S.ok_segment(lib, n) or not lib.SEGMENTS[n][1] for n in names[1:]):
+                continue
+            done += 1
+            body = list(names[1:])
+            mut = rng.choice(['none', 'none', 'z', 'foreign', 'drop', 'dup'])
+            if mut == 'z':
+                body.insert(rng.randint(0, len(body)), 'ZZ1')
+            elif mut == 'foreign':
+                body.insert(rng.randint(0, len(body)), rng.choice(['NTE', 'PV2', 'OBX']))
+            elif mut == 'drop' and len(body) > 1:
+                body.pop(rng.randrange(len(body)))
+            elif mut == 'dup':
+                body.insert(rng.randint(0, len(body)), rng.choice(body))
+            lines = []
+            for n in body:
+                if n == 'ZZ1':
+                    lines.append('ZZ1|1|a^b')
+                elif S.ok_segment(lib, n) and lib.SEGMENTS[n][1]:
+                    lines.append(mp_line(rng, lib, ec, n))
+            text = '\r'.join([c01.msh_line(m, v)] + lines)
+            profiles = [('none', None, m), ('empty', {}, m), ('restating', {m: std}, m), ('lacking', {'OTHER_X01': std}, m)]
+            for what in ('card', 'field'):
+                p = mp_edit_top(rng, std, lib, what)
+                if p is not None:
+                    profiles.append((what, {m: p, 'OTHER_X01': std}, m))
+            p = mp_edit_deep(rng, std, lib)
+            if p is not None:
+                profiles.append(('deep', {m: p}, m))
+                # the structure name written in lower case in MSH-9: the profile is indexed by the name AS WRITTEN
+                profiles.append(('lower-key', {m.lower(): p}, m.lower()))
+                profiles.append(('upper-key-only', {m: p}, m.lower()))
+            if legacy_tuple is not None:
+                profiles.append(('legacy', {m: legacy_tuple}, m))
+            # oracle probes: an empty profile lacks every structure; the constructor finds the structure whatever the
+            # letter case of the name it is given and keeps the profile's entry as the message reference
+            for lvl in (S.TOLERANT, S.STRICT):
+                for fg in (True, False):
+                    dist['mp_empty_probes'] = dist.get('mp_empty_probes', 0) + 1
+                    try:
+                        parse_message(text, validation_level=lvl, find_groups=fg, message_profile={})
+                        run.fail('missing-profile-not-reported', 'an empty message profile does not raise '
+                                 'MessageProfileNotFound', version=v, structure=m, call='parse/empty-profile', level=lvl,
+                                 find_groups=fg)
+                    except MessageProfileNotFound:
+                        pass
+                    except Exception as ex:  # noqa
+                        run.fail('missing-profile-not-reported', 'an empty message profile raises something else than '
+                                 'MessageProfileNotFound', version=v, structure=m, call='parse/empty-profile', level=lvl,
+                                 find_groups=fg, exc=repr(ex))
+                cprof = [p for k, p, _ in profiles if k == 'deep'] or [{m: std}]
+                dist['mp_ctor_case_probes'] = dist.get('mp_ctor_case_probes', 0) + 1
+                try:
+                    mm = Message(m.lower(), version=v, reference=cprof[0], validation_level=lvl)
+                    if thaw(getattr(mm, 'reference', None)) != thaw(cprof[0][m]):
+                        run.fail('message-reference-not-profile', 'Message(name.lower(), reference=p) does not keep p[NAME] '
+                                 'as the message reference', version=v, structure=m, call='ctor/lower-case-name', level=lvl)
+                except Exception as ex:  # noqa
+                    run.fail('message-reference-not-profile', 'Message(name.lower(), reference=p) raises although p holds '
+                             'the structure', version=v, structure=m, call='ctor/lower-case-name', level=lvl, exc=repr(ex))
+            for kind, prof, written in profiles:
+                term = mp_profile_term(lib, prof, legacy_keys=(m,) if kind == 'legacy' else ())
+                if term is None:
+                    run.note('message profile %s %s (%s) not translatable' % (v, m, kind))
+                    continue
+                for lvl in (S.TOLERANT, S.STRICT):
+                    for nm in sorted({written, m, m.lower()}) + [None]:
+                        try:
+                            Message(nm, version=v, reference=prof, validation_level=lvl)
+                            ccode = 0
+                        except Exception as ex:  # noqa
+                            ccode = S.outcome_code(ex)
+                        cbyv.setdefault(v, []).append({'v': v, 'lvl': lvl, 'name': nm, 'term': term, 'code': ccode,
+                                                       'kind': kind, 'structure': m})
+                txt = text if written == m else '\r'.join([c01.msh_line(written, v)] + lines)
+                dist['mp_' + kind] = dist.get('mp_' + kind, 0) + 1
+                dts = set()
+                for r in (prof or {}).values():
+                    if kind != 'legacy':
+                        mp_datatypes(r, dts)
+                for lvl in (S.TOLERANT, S.STRICT):
+                    for fg in (True, False):
+                        o = mp_observe(txt, lvl, fg, prof)
+                        if not all(is_model_str(x) for x in [txt, o['dump'], o['enc']] + o['keys']):
+                            continue
+                        o.update(v=v, lvl=lvl, fg=fg, text=txt, kind=kind, structure=m, term=term, dts=dts)
+                        byv.setdefault(v, []).append(o)
+    files, index = [], []
+    for v, cs in byv.items():
+        lib = hl7apy.load_library(v)
+        for k, sh in enumerate(shard(cs, 80)):
+            names = {}          # interned strings and profile terms: Definition <name> := <term>
+
+            def intern(term, prefix, typ):
+                if term not in names:
+                    names[term] = ('%s%d' % (prefix, len(names)), typ)
+                return names[term][0]
+            segs, dts = set(), set()
+            rows = []
+            for c in sh:
+                for line in c['text'].split('\r'):
+                    if is_model_str(line[:3]) and '"' not in line[:3]:
+                        segs.add(line[:3].upper())
+                dts |= c['dts']
+                rows.append('(%d%%nat, %s, %s, %s, %d%%nat, %s, %d%%nat, %s, %d%%nat, [%s])' % (
+                    c['lvl'], 'true' if c['fg'] else 'false', intern(c['term'], 'p', 'option profile'),
+                    intern(coq_str(c['text']), 's', 'str'), c['code'], intern(coq_str(c['dump']), 's', 'str'), c['ecode'],
+                    intern(coq_str(c['enc']), 's', 'str'), c['vcode'], '; '.join(coq_str(x) for x in c['keys'])))
+            for sn in segs:
+                if S.ok_segment(lib, sn):
+                    mp_datatypes(lib.SEGMENTS[sn], dts)
+            dts = sorted(d for d in dts if is_model_str(d) and '"' not in d)
+            L = [MP_PRELUDE % {'mod': S.modname(v), 'segs': '[%s]' % '; '.join(coq_str(x) for x in sorted(segs)),
+                               'dts': '[%s]' % '; '.join(coq_str(x) for x in dts)}]
+            csh = cbyv.get(v, []) if k == 0 else []       # the constructor cases of the version ride in its first file
+            crows = ['(%d%%nat, %s, %s, %d%%nat)' % (c['lvl'], 'None' if c['name'] is None else '(Some %s)' % coq_str(c['name']),
+                                                     intern(c['term'], 'p', 'option profile'), c['code']) for c in csh]
+            for term, (nm, typ) in names.items():
+                L.append('Definition %s : %s := %s.' % (nm, typ, term))
+            L.append('Definition cases : list case := [\n' + ';\n'.join(rows) + '\n].')
+            L.append('Definition ccases : list ccase := [\n' + ';\n'.join(crows) + '\n].')
+            profs = [nm for term, (nm, typ) in names.items() if typ == 'option profile']
+            L.append('Definition profs : list (option profile) := [%s].' % '; '.join(profs))
+            L.append('Eval vm_compute in failing tables_of_file 0 cases.')
+            L.append('Eval vm_compute in cfailing tables_of_file 0 ccases.')
+            L.append('Eval vm_compute in pfailing tables_of_file 0 profs.')
+            files.append(('c18m_%d_%s_%d' % (os.getpid(), v.replace('.', '_'), k), '\n'.join(L) + '\n'))
+            index.append((sh, csh, len(profs)))
+    return files, index
+
+
+def message_profile_collect(run, dist, index, results):
+    """model side: failing indices printed by coqc -> run.disagree('message-profile', ...); returns the number of cases
+    the model evaluated"""
+    from common import parse_nat_lists
+    evaluated = 0
+    for (sh, csh, nprofs), (rc, out) in zip(index, results):
+        lists = parse_nat_lists(out)
+        if rc != 0 or len(lists) != 3:
+            run.disagree('message-profile', why='case file did not evaluate', version=sh[0]['v'], output=out[-1500:])
+            continue
+        evaluated += len(sh) + len(csh)
+        dist['mp_ctor_cases'] = dist.get('mp_ctor_cases', 0) + len(csh)
+        dist['mp_profiles_groups_named_consistently'] = dist.get('mp_profiles_groups_named_consistently', 0) + nprofs - len(lists[2])
+        dist['mp_profiles_groups_not_named_consistently'] = dist.get('mp_profiles_groups_not_named_consistently', 0) + len(lists[2])
+        for i in lists[1]:
+            c = csh[i]
+            run.disagree('message-profile', version=c['v'], structure=c['structure'], profile_kind=c['kind'], level=c['lvl'],
+                         call='Message(name, reference=profile)', name=c['name'], profile=c['term'][:1500],
+                         implementation={'code': c['code']})
+        for i in lists[0]:
+            c = sh[i]
+            run.disagree('message-profile', version=c['v'], structure=c['structure'], profile_kind=c['kind'],
+                         level=c['lvl'], find_groups=c['fg'], text=c['text'], profile=c['term'][:1500],
+                         implementation={'code': c['code'], 'dump': c['dump'][:1500], 'ecode': c['ecode'],
+                                         'enc': c['enc'][:400], 'vcode': c['vcode'], 'errors': c['keys'][:8]})
+    dist['mp_cases'] = evaluated
+    return evaluated
+
+
+def message_profile_correspondence(run, dist):
+    """prepare + evaluate + collect in one go (main() overlaps the coqc runs with the oracle work instead)"""
+    from common import coq_eval_many
+    files, index = message_profile_prepare(run, dist)
+    return message_profile_collect(run, dist, index, coq_eval_many(files, timeout=1500))
+
+# ======================================== end of MESSAGE-LEVEL CORRESPONDENCE ===============================
+
+
 def main(argv=None):
     run = Run('C18', argv)
-    ok = run.build(['Properties/C18.vo'], gen=('params', 'tables'), obligation_files=['Properties/C18.v'])
+    # the model files the two correspondence runs load besides the dependencies of Properties/C18.vo are built too, so that a
+    # change of coq/Gen (regenerated from the tree under test) cannot leave them stale
+    ok = run.build(['Properties/C18.vo', 'Model/LeafFull.vo', 'Model/Dump.vo', 'Model/Encode.vo', 'Model/Validate.vo'],
+                   gen=('params', 'tables'), obligation_files=['Properties/C18.v'])
     if ok:
         run.print_assumptions('Properties.C18', [n for n, _ in theorems_of('Properties/C18.v')])
     rng = run.rng
     dist = {'segment_profiles': 0, 'edits_card': 0, 'edits_dt': 0, 'restating': 0, 'message_profiles': 0,
             'datatype_readbacks': 0}
+    # message-level correspondence (Model/MessageProf.v): the implementation side runs now, the coqc runs go on in the
+    # background while the oracles below work, the results are collected before the segment-level model run
+    from concurrent.futures import ThreadPoolExecutor
+    from common import coq_eval_many
+    mp_files, mp_index = message_profile_prepare(run, dist)
+    run.log('message-profile cases prepared: %d case files' % len(mp_files))
+    mp_pool = ThreadPoolExecutor(max_workers=1)
+    mp_future = mp_pool.submit(coq_eval_many, mp_files, 1500)
     cases = []
     nseg = 14 if not run.thorough else 60
     distinct = set()
@@ -113,6 +550,8 @@ def main(argv=None):
             for ed in edits:
                 dist['edits_card' if ed[0] == 'card' else 'edits_dt'] += 1
             distinct.add((v, sname, tuple(map(str, edits))))
+            import gen_tables
+            gen_tables._EQ.clear()     # see mp_profile_term: the memo is keyed by id() and profiles are short-lived
             ref_term = '(%s)%%Z' % S.sref_term(lib, prof)
             for k in range(3):
                 text = S.gen_segment_line(rng, lib, ec, sname, messy=(k == 2))
@@ -399,6 +838,62 @@ def main(argv=None):
                 run.fail('profiled-parse-crashes', 'parsing / building a conforming message under a profile that differs '
                          'inside a repeating group raised a non-library exception', version=v, structure=m,
                          path=ed[1], text=text, exc=repr(ex))
+    # ---- find_groups=False: parse_segments(..., references, find_groups=False) does not use `references` (parser.py:155),
+    # so the segments of a flat parse are built on the standard tables whatever the profile says (recorded finding; the
+    # model reproduces it: Properties/C18.v C18_flat_nodes_take_profile_subreference_refuted).  The same text parsed with
+    # find_groups=True must thread the profile (route 'parse_message').
+    nflat = 2 if not run.thorough else 12
+    for v in S.VERSIONS:
+        lib = hl7apy.load_library(v)
+        ec = S.default_ec(v)
+        base = lib.get_base_datatypes()
+        mnames = [m for m in sorted(lib.MESSAGES) if isinstance(lib.MESSAGES[m], tuple) and len(lib.MESSAGES[m]) == 2
+                  and lib.MESSAGES[m][1] and '_' in m and not m.endswith('nn')]
+        rng.shuffle(mnames)
+        done = 0
+        for m in mnames:
+            if done >= nflat:
+                break
+            std = lib.MESSAGES[m]
+            try:
+                names = c01.instance_names(std, 'req')
+            except Exception:  # noqa
+                continue
+            if not names or names[0] != 'MSH' or 'ANYHL7SEGMENT' in names or len(names) > 30:
+                continue
+            if any(not S.ok_segment(lib, n) or not lib.SEGMENTS[n][1] for n in names[1:]):
+                continue
+            # a required top-level segment with a swappable leaf field
+            cands = []
+            for row in std[1]:
+                if row[3] == 'SEG' and row[0] != 'MSH' and row[2][0] >= 1 and row[1] is not None and row[1][1]:
+                    fs = [f for f in row[1][1] if f[1] is not None and f[1][0] == 'leaf' and BASE_SWAP.get(f[1][2]) in base]
+                    if fs:
+                        cands.append((row[0], rng.choice(fs)[0]))
+            if not cands:
+                continue
+            sname, fname = rng.choice(cands)
+            r = thaw(std)
+            for row in r[1]:
+                if row[0] == sname and row[3] == 'SEG':
+                    for f in row[1][1]:
+                        if f[0] == fname:
+                            f[1][2] = BASE_SWAP[f[1][2]]
+                            f[2] = [1, 1] if f[2][0] == 0 else [0, 1]
+            prof = {m: freeze(r)}
+            done += 1
+            dist['flat_profile_probes'] = dist.get('flat_profile_probes', 0) + 1
+            text = '\r'.join([c01.msh_line(m, v)] + [c01.canonical_line(rng, lib, ec, n) for n in names[1:]])
+            for fg, route in ((True, 'parse_message'), (False, 'parse_message/find_groups=False')):
+                try:
+                    msg = parse_message(text, validation_level=S.TOLERANT, find_groups=fg, message_profile=prof)
+                    check_threading(msg, v, m, route)
+                except HL7apyException as ex:
+                    run.note('flat-mode profile probe %s %s skipped: %r' % (v, m, ex))
+                except Exception as ex:  # noqa
+                    run.fail('profiled-parse-crashes', 'parsing a conforming message under a profile that retypes a field of a '
+                             'top-level segment raised a non-library exception', version=v, structure=m, path=[sname, fname],
+                             text=text, exc=repr(ex))
     # ---- a profile that constrains ONE of two same-named components (the same datatype at two positions of a segment)
     def twin_fields(seg_ref):
         """(field row a, field row b, component name): two fields of one complex datatype that has a complex component"""
@@ -419,7 +914,7 @@ def main(argv=None):
         parts = []
         for j, c in enumerate(fref[1]):
             if only is not None:
-                parts.append('s0' if c[0] == only else '')
+                parts.append('1' if c[0] == only else '')
             elif c[1][0] == 'sequence':
                 parts.append(ec['SUBCOMPONENT'].join('s%d' % k for k in range(len(c[1][1]))))
             else:
@@ -484,6 +979,21 @@ def main(argv=None):
                     subname = [x for x in frow[1][1] if x[0] == cname][0][1][1][0][0]
                     comp.add_subcomponent(subname).value = 'x'
                 check_threading(m3, v, m, 'add_helper/twin-components')
+                # the same traversal assignment under STRICT: the subcomponent is created with the datatype the profile
+                # gives it (a swap is the profile's datatype, not an override)
+                m4 = Message(m, version=v, reference=prof, validation_level=S.STRICT)
+                seg4 = m4.add_segment(srow[0])
+                comp4 = getattr(getattr(seg4, b[0].lower()), cname.lower())
+                for sr in tc[1][1][:2]:
+                    try:
+                        setattr(comp4, sr[0].lower(), '1')
+                    except (HL7apyException, ValueError) as ex:
+                        if sr[1][0] == 'leaf' and sr[1][2] in ('ST', 'NM', 'SI', 'ID', 'IS', 'TX', 'FT'):
+                            run.fail('child-datatype-not-from-profile', 'under STRICT a subcomponent cannot be assigned as text at a '
+                                     'position whose datatype the profile sets', version=v, segment=srow[0], path=[b[0], cname, sr[0]],
+                                     got=repr(ex)[:200], profile=sr[1][2], text=None, level=S.STRICT, edits=None,
+                                     route='traversal/twin-components/STRICT')
+                check_threading(m4, v, m, 'traversal/twin-components/STRICT')
                 # validate() judges each position by the profile: leave the component of each field with its first
                 # subcomponent only - the profile requires the others in the second field alone
                 flds2 = list(flds)
@@ -537,29 +1047,64 @@ def main(argv=None):
                 check_threading(tgt.qpd[0], '2.5', 'RSP_K21', 'proxy-assignment/iti-21')
             except HL7apyException as ex:
                 run.note('ITI-21 proxy copy refused: %r' % (ex,))
+        for lvl in (S.TOLERANT, S.STRICT):
+            # segment text in lower case keeps the profile's sub-reference
+            tgt = Message('RSP_K21', version='2.5', reference=iti, validation_level=lvl)
+            try:
+                tgt.qpd = 'qpd|IHE PDQ Query|111069|@PID.3.1^1010110909194822'
+                got = tgt.qpd.qpd_3.datatype
+                if got != 'QIP' or tgt.qpd.allow_infinite_children:
+                    run.fail('child-datatype-not-from-profile', 'ITI-21 profile: a QPD assigned as lower-case text does not take the '
+                             'profile datatype QIP for QPD-3', version='2.5', segment='QPD', path=['QPD_3'], got=got,
+                             profile='QIP', text='qpd|...', level=lvl, edits=None, route='text-assignment/lower-case')
+            except HL7apyException as ex:
+                run.note('ITI-21 lower-case text assignment refused: %r' % (ex,))
         legacy = hl7apy.load_message_profile(os.path.join(base, 'old_pharm_h4' + ('_win' if os.name == 'nt' else '')))
         try:
             Message('RAS_O17', reference=legacy)
-            run.fail('legacy-profile-not-reported', 'a legacy-format profile does not raise LegacyMessageProfile')
+            run.fail('legacy-profile-not-reported', 'a legacy-format profile does not raise LegacyMessageProfile',
+                     call='Message(name, reference=profile)')
         except LegacyMessageProfile:
             pass
+        # the same through the parser, in all four modes (fixed in aff5963: the parser looks the structure up itself)
+        ltext = 'MSH|^~\\&|A|B|C|D|20110708162817||RAS^O17^RAS_O17|1|P|2.5\rPID|1||X||N\r'
+        for lvl in (S.TOLERANT, S.STRICT):
+            for fg in (True, False):
+                dist['legacy_parses'] = dist.get('legacy_parses', 0) + 1
+                try:
+                    parse_message(ltext, validation_level=lvl, find_groups=fg, message_profile=legacy)
+                    run.fail('legacy-profile-not-reported', 'parse_message with a legacy-format profile does not raise '
+                             'LegacyMessageProfile', call='parse_message', level=lvl, find_groups=fg, text=ltext)
+                except LegacyMessageProfile:
+                    pass
+                except Exception as ex:  # noqa
+                    run.fail('legacy-profile-not-reported', 'parse_message with a legacy-format profile raises something '
+                             'else than LegacyMessageProfile', call='parse_message', level=lvl, find_groups=fg, text=ltext,
+                             exc=repr(ex))
     except (OSError, pickle.UnpicklingError) as ex:
         run.note('shipped profiles not readable: %r' % (ex,))
     run.log('message level done: %d failures' % len(run.failures))
+    mp_evaluated = message_profile_collect(run, dist, mp_index, mp_future.result())
+    mp_pool.shutdown()
+    run.log('message-profile model evaluated %d profiled message parses, %d disagreements' % (mp_evaluated, len(run.disagreements)))
     evaluated = S.run_model(run, cases, 'c18', per_file=500)
     run.log('model evaluated %d profiled parses, %d disagreements' % (evaluated, len(run.disagreements)))
     samples = [{'version': c['v'], 'text': c['text'][:120], 'edits': [str(e) for e in c.get('edits', [])],
                 'code': c['code']} for c in cases[:: max(1, len(cases) // 5)][:5]]
     run.finish({
-        'evaluations': len(cases) + dist['restating'] + dist['message_profiles'] * 4,
+        'evaluations': len(cases) + dist['restating'] + dist['message_profiles'] * 4 + mp_evaluated,
         'distinct_nontrivial': len(distinct),
         'rule': 'segment profiles = standard segment references of every version with 1-3 random edits (cardinality '
                 'changes; base-datatype swaps at field, component or subcomponent depth), given to parse_segment in both '
                 'levels on generated lines and to the Coq model as inline srefs; message profiles = one-edit (required / '
-                'forbidden segment) copies of standard structures + the shipped ITI-21 and legacy profiles; distinct = '
+                'forbidden segment) copies of standard structures + the shipped ITI-21 and legacy profiles; message-level '
+                'model correspondence (Model/MessageProf.v) = per version message structures with groups x profiles {None, '
+                'empty, restating, lacking, required/forbidden segment, retyped field of a top-level segment, edit inside '
+                'nested groups, differently-cased key, legacy entry} x both levels x both find_groups modes (outcome, full '
+                'tree dump, encoding, validate() error keys) + Message(name, reference=profile) outcomes; distinct = '
                 'distinct (version, segment, edit list)',
         'samples': samples,
-        'traces_validated_against_impl': evaluated,
+        'traces_validated_against_impl': evaluated + mp_evaluated,
         'input_distribution': dist,
     }, assumptions=['profiles are Python references of the standard shape; creation through traversal/add_* helpers is '
                     'exercised by the heap checks'])
